@@ -390,8 +390,9 @@ def _order_and_bookkeeping(prog, res):
   # `quantiles_idx[i] = ...` ranges over i = 0 (or 1: position 0 is always a
   # first use) .. len(quantiles_idx) - 1
   idx = dotted(stores[0].targets[0].slice)
-  loops = [l for l in ast.walk(wq.node) if isinstance(l, ast.For) and dotted(
-      l.target) == idx and any(x is stores[0] for x in ast.walk(l))]
+  loops = [l for l in ast.walk(wq.node) if isinstance(l, ast.For) and any(
+      isinstance(t, ast.Name) and t.id == idx for t in ast.walk(l.target))
+           and any(x is stores[0] for x in ast.walk(l))]
   if len(loops) != 1:
     raise AnalysisError('_weighted_quantile: the loop over the positions of '
                         'quantiles_idx was not found')
